@@ -104,7 +104,11 @@ Plan genFaulty(const std::string& prop, int tier, uint64_t batchSeed, uint64_t i
     // one random run in ten: a long stream of one endpoint that loses a BURST of consecutive frames whose length sits on
     // an 8/9-bit boundary (254..258, 511..513): counters and segment indexes that alias modulo 256 must not be accepted
     const bool burst = !sweep && r.chance(1, 10);
-    const size_t nNodes = burst ? 1 : (sweep ? 1 + r.below(2) : 1 + r.below(3));
+    // one random run in twelve: a CROWD - 64..150 endpoints that are all in the middle of a message at the same time when
+    // the faults hit (pending tables beyond any small bound: caps, evictions and rehashes happen there), then a second
+    // wave of messages that must come through
+    const bool crowd = !sweep && !burst && r.chance(1, 12);
+    const size_t nNodes = crowd ? 64 + r.below(87) : burst ? 1 : (sweep ? 1 + r.below(2) : 1 + r.below(3));
     auto eps = g.pickEndpoints(nNodes);
     std::vector<int> nodeType(nNodes);
     for (size_t i = 0; i < nNodes; ++i)
@@ -129,7 +133,55 @@ Plan genFaulty(const std::string& prop, int tier, uint64_t batchSeed, uint64_t i
         if (burst && it.tag == "node")
             it.set("type", 2).set("gap", 1).set("ctr0", static_cast<int64_t>(r.below(65536)));
     const int burstSegs = static_cast<int>(r.range(2, 4));
-    for (size_t o = 0; o < nOps; ++o)
+    if (crowd)
+    {
+        for (auto& it : g.plan.items)
+            if (it.tag == "node")
+                it.set("type", 2).set("gap", 30000 + static_cast<int64_t>(r.below(20000))).set("ctr0", static_cast<int64_t>(r.below(65536)));
+        for (size_t i = 0; i < nNodes; ++i)
+            nodeType[i] = 2;
+        g.cfg().set("crowd", static_cast<int64_t>(nNodes));
+        // wave 1: every endpoint opens a message of 2-3 segments; all first segments are out before the first second one
+        std::vector<size_t> wave1;
+        for (size_t i = 0; i < nNodes; ++i)
+        {
+            const int ns = static_cast<int>(r.range(2, 3));
+            Item& op = g.addOp(OP_RAWSEG, static_cast<int>(i + 1), ns);
+            op.set("ver", 1).set("mtype", 1).set("ptype", 0x20).set("id", g.msgId()).set("ts", static_cast<int64_t>(g.pickTs())).set("ifid", static_cast<int64_t>(r.below(1000)));
+            for (int k = 0; k < ns; ++k)
+            {
+                Item sgm("s");
+                sgm.set("len", r.range(0, 24));
+                op.sub.push_back(sgm);
+            }
+            wave1.push_back(g.plan.items.size() - 1);
+            ops.push_back(OpRef{g.plan.items.size() - 1, ns, true});
+        }
+        // the faults sit where they leave state behind: duplicated first segments, lost tails, a late stale copy
+        const size_t nHit = 1 + r.below(6);
+        for (size_t k = 0; k < nHit; ++k)
+        {
+            Item& op = g.plan.items[wave1[r.below(wave1.size())]];
+            switch (r.below(4))
+            {
+                case 0:
+                    addFault(op, F_DUP, 0, r.pick<int64_t>({0, 1, 40000, 90000}));
+                    break;
+                case 1:
+                    addFault(op, F_DROP, static_cast<int64_t>(op.sub.size()) - 1);
+                    break;
+                case 2:
+                    addFault(op, F_DROP, 1);
+                    break;
+                default:
+                    addFault(op, F_DELAY, static_cast<int64_t>(r.below(3)), r.pick<int64_t>({1, 30001, 70000}));
+                    break;
+            }
+        }
+        g.clock += 200000;
+    }
+    const size_t nLoopOps = crowd ? nNodes / 2 + r.below(nNodes) : nOps;
+    for (size_t o = 0; o < nLoopOps; ++o)
     {
         int ni = static_cast<int>(r.below(nNodes));
         int64_t est = addTrafficOp(g, ni + 1, nodeType[ni], true, burst ? burstSegs : (sweep ? 4 : 12));
